@@ -241,12 +241,16 @@ func History(t *rapid.T, label string, big bool) (*Live, string) {
 			l.B.RunOptimize()
 			desc += "; RunOptimize()"
 		default:
-			os, rel := gen.Related(t, label+".other", bs, gen.KindsValid)
+			cur := bs
+			if l.Model.Card() < 200000 && rapid.Bool().Draw(t, label+".relateToCurrent") {
+				cur = gen.FromSet(t, label+".cur", l.Model, gen.KindsValid)
+			}
+			os, rel := gen.Related(t, label+".other", cur, gen.KindsValid)
 			ol, err := Make(os, DrawForm(t, label+".oform"))
 			if err != nil {
 				t.Fatalf("cannot materialize: %v", err)
 			}
-			switch rapid.IntRange(0, 3).Draw(t, label+".alg") {
+			switch rapid.IntRange(0, 7).Draw(t, label+".alg") {
 			case 0:
 				l.B.And(ol.B)
 				l.Model = model.And(l.Model, ol.Model)
@@ -259,10 +263,33 @@ func History(t *rapid.T, label string, big bool) (*Live, string) {
 				l.B = roaring.Xor(l.B, ol.B) // static: the in-place form is known to touch its argument
 				l.Model = model.Xor(l.Model, ol.Model)
 				desc += "; Xor(" + rel + ")"
-			default:
+			case 3:
 				l.B.AndNot(ol.B)
 				l.Model = model.AndNot(l.Model, ol.Model)
 				desc += "; AndNot(" + rel + ")"
+			case 4:
+				// many-way forms take the lazy paths (deferred cardinalities, repair pass)
+				l.B = roaring.FastOr(l.B, ol.B)
+				l.Model = model.Or(l.Model, ol.Model)
+				desc += "; =FastOr(this," + rel + ")"
+			case 5:
+				l.B = roaring.ParOr(2, l.B, ol.B, l.B)
+				l.Model = model.Or(l.Model, ol.Model)
+				desc += "; =ParOr(2,this," + rel + ",this)"
+			case 6:
+				l.B = roaring.ParHeapOr(0, ol.B, l.B)
+				l.Model = model.Or(l.Model, ol.Model)
+				desc += "; =ParHeapOr(0," + rel + ",this)"
+			default:
+				if rapid.Bool().Draw(t, label+".staticAnd") {
+					l.B = roaring.And(ol.B, l.B)
+					l.Model = model.And(l.Model, ol.Model)
+					desc += "; =And(" + rel + ",this)"
+				} else {
+					l.B = roaring.Or(ol.B, l.B)
+					l.Model = model.Or(l.Model, ol.Model)
+					desc += "; =Or(" + rel + ",this)"
+				}
 			}
 			l.keep = append(l.keep, ol)
 		}
